@@ -9,7 +9,7 @@
 //!   - the clock advancing by 10 s or 31 s (timeouts are 30 s) followed by what the shell does: handle_timeout when
 //!     the armed deadline has passed,
 //!   - SetMaxFlows(1), SetMaxFlows(3) (initial cap 2), Drain, SetCluster(requests = 2, responses = 1), abort of flow
-//!     0/1/2, close_all (mass teardown),
+//!     0/1/2, close_all (mass teardown), SetCluster flipping the affinity key (ip+port <-> ip only) while flows are live,
 //! and checks after every operation, from the property statement:
 //!   stickiness  every SendToBackend produced for a flow goes to the backend address of the FIRST resolution of that
 //!               flow, and only client datagrams of that flow's key produce it;
@@ -47,11 +47,11 @@ fn client(n: usize) -> SocketAddr {
 fn backend(n: usize) -> SocketAddr { SocketAddr::new(IpAddr::V4(Ipv4Addr::new(127, 0, 0, 1 + n as u8)), 5300) }
 
 #[derive(Clone, Copy, Debug, PartialEq)]
-enum Op { Cd(usize), Bd(usize), Br(usize), Tick(u64), SetMax(usize), Drain, SetCluster, Abort(usize), CloseAll }
+enum Op { Cd(usize), Bd(usize), Br(usize), Tick(u64), SetMax(usize), Drain, SetCluster, Flip, Abort(usize), CloseAll }
 
-const OPS: [Op; 19] = [
+const OPS: [Op; 20] = [
     Op::Cd(0), Op::Cd(1), Op::Cd(2), Op::Bd(0), Op::Bd(1), Op::Bd(2), Op::Br(0), Op::Br(1), Op::Br(2),
-    Op::Tick(10), Op::Tick(31), Op::SetMax(1), Op::SetMax(3), Op::Drain, Op::SetCluster,
+    Op::Tick(10), Op::Tick(31), Op::SetMax(1), Op::SetMax(3), Op::Drain, Op::SetCluster, Op::Flip,
     Op::Abort(0), Op::Abort(1), Op::Abort(2), Op::CloseAll,
 ];
 
@@ -87,7 +87,8 @@ fn opens(outs: &[Output]) -> Vec<(FlowId, SocketAddr)> { outs.iter().filter_map(
 
 fn payload(seq: u32) -> Vec<u8> { format!("datagram-{seq:04}").into_bytes() }
 
-fn run(seq: &[Op], with_port: bool) -> Option<String> {
+fn run(seq: &[Op], with_port0: bool) -> Option<String> {
+    let mut with_port = with_port0;
     let mut m = UdpManager::new(cfg(with_port, 0, 0), 2, 65535, 7);
     let t0 = Instant::now();
     let mut now = Duration::ZERO;
@@ -100,7 +101,8 @@ fn run(seq: &[Op], with_port: bool) -> Option<String> {
     for (i, op) in seq.iter().enumerate() {
         let at = t0 + now;
         let live_before = flows.len();
-        let ctx = |what: String| Some(format!("step {i} ({op:?}) [affinity_with_port = {with_port}]: {what}"));
+        let mode_now = with_port;
+        let ctx = move |what: String| Some(format!("step {i} ({op:?}) [affinity_with_port = {mode_now}]: {what}"));
         macro_rules! nothing_else {
             ($outs:expr, $allow_close:expr) => {
                 if !$allow_close && !closes(&$outs).is_empty() { return ctx(format!("unexpected CloseFlow {:?}", closes(&$outs))); }
@@ -269,6 +271,14 @@ fn run(seq: &[Op], with_port: bool) -> Option<String> {
                 let outs = drain(&mut m);
                 nothing_else!(outs, false);
                 requests_budget = 2; responses_budget = 1;
+            }
+            Op::Flip => {
+                // cluster reconfiguration that changes the affinity key: it applies to NEW flows; live flows keep the key
+                // they were opened under and stay reachable by it only (a client of a live flow opens a second one)
+                with_port = !with_port;
+                m.handle_input(ManagerInput::Config(ConfigEvent::SetCluster(cfg(with_port, requests_budget, responses_budget))), at);
+                let outs = drain(&mut m);
+                nothing_else!(outs, false);
             }
             Op::Abort(id) => {
                 m.abort_flow(id, at, CloseReason::Aborted);
